@@ -9,7 +9,7 @@ PID = "C05"
 LEVEL = "model_checking"
 WITNESSES = ["cc_at_ccx_day", "hiadj_above_hi0_day", "yield_formation_day", "zroot_at_zmax_day", "cold_day_gdd0",
              "hot_day_gdd_max", "thermal_crop_day", "table_present_day", "table_above_zmax_day", "root_pushed_up_by_table",
-             "early_canopy_decline_day", "off_season_row"]
+             "early_canopy_decline_day", "off_season_row", "fallow_after_death_row"]
 NONTRIVIAL = ["hiadj_above_hi0_day", "zroot_at_zmax_day", "cold_day_gdd0", "hot_day_gdd_max", "table_above_zmax_day",
               "root_pushed_up_by_table", "early_canopy_decline_day"]
 
@@ -47,6 +47,11 @@ def scenarios(tier, seed=0):
     for name in sub:
         spec = A.catalogue_spec(name, soil="SandyLoam", word="warm", off=True, start="2001/04/20", end="2001/12/30")
         yield {"kind": "spec", "spec": spec, "label": ["offseason", name]}
+    # fallow rows after a season that ended by crop DEATH (drought / cold), followed by a second season
+    for name in sub:
+        for kw in (dict(word="warm", frm=[25, "D"]), dict(word="warm", dev=[[d, "F"] for d in range(30, 50)])):
+            spec = A.catalogue_spec(name, soil="SandyLoam", off=True, start="2001/04/25", end="2002/12/30", **kw)
+            yield {"kind": "spec", "spec": spec, "label": ["offseason-after-death", name, sorted(kw)]}
     # bunded, ponded fields (submergence days, transpiration from the pond) from mid-season on
     for name in (sub if tier == "quick" else [n for n in names if n in A.calendar_crop_names()]):
         for soil in ("Clay", "Paddy"):
